@@ -7,6 +7,8 @@
 From Coq Require Import List Arith PrimFloat.
 From Knee Require Import Num NumFloat NpList OrdLaws Proofs.ListFacts Model.MultiKnee Proofs.MultiKneeFacts.
 From Knee Require Import Model.Uts Model.Detectors Proofs.DetectorsFacts Proofs.MultiKneeDetectors.
+From Coq Require Import Reals.
+From Knee Require Import NumR Model.Metrics Model.LinearFit Model.MultiKneeStraight Proofs.MultiKneeStraightFacts Proofs.MultiKneeStraightReal.
 Import ListNotations.
 
 (* termination with the model's own fuel within max 1 (2n-1) <= 2n pops; strictly increasing; every index in [lo, n-2];
@@ -122,6 +124,80 @@ Theorem C02_range_needed : forall (N : Num) cost (straight : nat -> nat -> T N) 
 Proof. exact @mk_loop_last_index_diverges. Qed.
 Print Assumptions C02_range_needed.
 
+(* ---- the closed model: the straightness is DERIVED from the points (Model/MultiKneeStraight.v), the detector is the only oracle.
+   mk_straight eps P cost l r := let pt := slice P l r in let c := linear_fit_points pt in
+                                 match cost with MkR2 => linear_r2_points pt c R2classic | _ => smape_points pt c eps end
+   (end-point line m = (y0 - yn)/(x0 - xn), b = y0 - m*x0, (0,0) iff x0 - xn = 0; fitted values x*m + b; SMAPE with the numba
+   left-fold mean; R2 with NumPy's pairwise sums — the formula layer's definitions, validated bit-for-bit by C16 and, on every
+   visited range, by this check's holds conjunct 8);  multi_knee_pts eps P cost knee1 t1 t2 := multi_knee cost (mk_straight eps P cost) knee1 t1 t2 (length P) *)
+Theorem C02_total_points : forall (N : Num) (eps : T N) cost (P : list (T N * T N)) knee1 t1 t2 lo,
+  knee_in_range knee1 t2 lo (length P) ->
+  exists ks tr, multi_knee_pts eps P cost knee1 t1 t2 = Some (ks, tr) /\
+                length tr <= Nat.max 1 (2 * length P - 1) /\ (1 <= length P -> length tr <= 2 * length P) /\
+                SI ks /\ Forall (fun i => lo <= i /\ i + 2 <= length P) ks /\
+                ks = mk_spec cost (mk_straight eps P cost) knee1 t1 t2 0 (length P).
+Proof. exact @mk_total_pts. Qed.
+Print Assumptions C02_total_points.
+
+Theorem C02_empty_small_points : forall (N : Num) (eps : T N) cost (P : list (T N * T N)) knee1 t1 t2 lo,
+  knee_in_range knee1 t2 lo (length P) -> length P <= t2 ->
+  mk_knees (multi_knee_pts eps P cost knee1 t1 t2) = Some [].
+Proof. exact @mk_empty_small_pts. Qed.
+Print Assumptions C02_empty_small_points.
+
+(* "its endpoint-line SMAPE is below t1": the comparison the code makes is t1 <= smape, so `below` is its negation *)
+Theorem C02_empty_smape_points : forall (N : Num) (eps : T N) cost (P : list (T N * T N)) knee1 t1 t2 lo,
+  knee_in_range knee1 t2 lo (length P) -> cost <> MkR2 -> 2 < length P ->
+  Num.leb t1 (smape_points P (linear_fit_points P) eps) = false ->
+  mk_knees (multi_knee_pts eps P cost knee1 t1 t2) = Some [].
+Proof. exact @mk_empty_smape_pts. Qed.
+Print Assumptions C02_empty_smape_points.
+
+Theorem C02_empty_r2_points : forall (N : Num) (eps : T N) cost (P : list (T N * T N)) knee1 t1 t2 lo,
+  knee_in_range knee1 t2 lo (length P) -> cost = MkR2 -> 2 < length P ->
+  Num.ltb (linear_r2_points P (linear_fit_points P) R2classic) t1 = false ->
+  mk_knees (multi_knee_pts eps P cost knee1 t1 t2) = Some [].
+Proof. exact @mk_empty_r2_pts. Qed.
+Print Assumptions C02_empty_r2_points.
+
+(* self-similarity on the points: points[:k+1] = firstn (k+1) P and points[k+1:] = skipn (k+1) P, each with the straightness
+   derived from ITS OWN points; the detector oracle of the right slice is the same table shifted *)
+Theorem C02_decomp_points : forall (N : Num) (eps : T N) cost (P : list (T N * T N)) knee1 t1 t2 lo,
+  knee_in_range knee1 t2 lo (length P) -> forall k,
+  mk_step cost (mk_straight eps P cost) knee1 t1 t2 0 (length P) = Some k ->
+  exists kl kr,
+    mk_knees (multi_knee_pts eps (firstn (k + 1) P) cost knee1 t1 t2) = Some kl /\
+    mk_knees (multi_knee_pts eps (skipn (k + 1) P) cost (shift2 (k + 1) knee1) t1 t2) = Some kr /\
+    mk_knees (multi_knee_pts eps P cost knee1 t1 t2) = Some (kl ++ [k] ++ map (fun i => i + (k + 1)) kr).
+Proof. exact @mk_decomp_pts. Qed.
+Print Assumptions C02_decomp_points.
+
+(* the judged predicate on the closed model (what Run/JudgeC02.v evaluates with eps = 1e-16 on binary64) *)
+Theorem C02_holds_points : forall (N : Num) (eps : T N) cost (P : list (T N * T N)) knee1 t1 t2 lo,
+  knee_in_range knee1 t2 lo (length P) ->
+  mk_holds lo (length P) (mk_step cost (mk_straight eps P cost) knee1 t1 t2 0 (length P))
+           (mk_obs (multi_knee_pts eps P cost knee1 t1 t2))
+           (mk_subL cost (mk_straight eps P cost) knee1 t1 t2 (length P))
+           (mk_subR cost (mk_straight eps P cost) knee1 t1 t2 (length P)) = 0.
+Proof. exact (fun N eps cost P knee1 t1 t2 lo => @mk_holds_model N cost (mk_straight eps P cost) knee1 t1 t2 lo (length P)). Qed.
+Print Assumptions C02_holds_points.
+
+(* Tier A (reals): an exactly straight curve y = m*x + b — whatever the offset and the span of its abscissae, as long as the two
+   end abscissae differ — has end-point-line SMAPE 0, and multi-knee detection returns NO knee for every t1 > 0, every detector
+   (any oracle inside its range), every t2, every eps *)
+Theorem C02_straight_line_smape : forall (b m eps : R) (P : list (R * R)),
+  P <> [] -> hd 0%R (map fst P) <> last (map fst P) 0%R -> on_line b m P ->
+  @smape_points RNum P (@linear_fit_points RNum P) eps = 0%R.
+Proof. exact straight_line_smape. Qed.
+Print Assumptions C02_straight_line_smape.
+
+Theorem C02_straight_line_empty : forall (b m eps : R) (P : list (R * R)) cost knee1 (t1 : R) t2 lo,
+  cost <> MkR2 -> 2 < length P -> hd 0%R (map fst P) <> last (map fst P) 0%R -> on_line b m P -> (0 < t1)%R ->
+  knee_in_range knee1 t2 lo (length P) ->
+  mk_knees (@multi_knee_pts RNum eps P cost knee1 t1 t2) = Some [].
+Proof. exact mk_straight_line_empty. Qed.
+Print Assumptions C02_straight_line_empty.
+
 (* non-vacuity: an oracle valuation meeting the hypothesis for every n (the detector answers the middle of any slice of
    more than 3 points), and the model evaluated on it on doubles: 12 points, t1 = 0.5 <= straightness 1.0 *)
 Theorem C02_example_in_range : forall n, knee_in_range ex_knee1 3 1 n.
@@ -133,4 +209,17 @@ Example C02_example :
   mk_subL (N := FloatNum) MkSmape (fun _ _ => 1%float) ex_knee1 0.5%float 3 12 = Some [2; 3] /\
   mk_subR (N := FloatNum) MkSmape (fun _ _ => 1%float) ex_knee1 0.5%float 3 12 = Some [2] /\
   mk_obs (multi_knee (N := FloatNum) MkSmape (fun _ _ => 1%float) ex_knee1 2%float 3 12) = Some ([], 1).
+Proof. vm_compute. auto. Qed.
+
+(* the closed model evaluated on binary64: 5 samples of an exactly straight line at x = 1.7e9 + [0, 1] (the end abscissae differ
+   by less than 1e-9 of their magnitude): derived SMAPE 0, no knee at t1 = 0.001; a bent curve at the same offset: one knee *)
+Example C02_example_points :
+  let eps := 0x1.cd2b297d889bcp-54%float in
+  let line := [(1700000000%float, 0%float); (1700000000.25%float, 4%float); (1700000000.5%float, 8%float);
+               (1700000000.75%float, 12%float); (1700000001%float, 16%float)] in
+  let bent := [(1700000000%float, 0%float); (1700000000.25%float, 4%float); (1700000000.5%float, 8%float);
+               (1700000000.75%float, 8%float); (1700000001%float, 8%float)] in
+  mk_straight (N := FloatNum) eps line MkSmape 0 5 = 0%float /\
+  mk_obs (multi_knee_pts (N := FloatNum) eps line MkSmape ex_knee1 0.001%float 3) = Some ([], 1) /\
+  mk_obs (multi_knee_pts (N := FloatNum) eps bent MkSmape ex_knee1 0.001%float 3) = Some ([2], 3).
 Proof. vm_compute. auto. Qed.
